@@ -1295,6 +1295,10 @@ def r38_matmul_shapes(facts):
             for n in walk(facts.root(b)):
                 if n.get("k") == "If" and n.get("else") is None and _panics(n["then"]):
                     for x in walk(n["cond"]):
+                        if x.get("k") == "Binary" and x.get("op") in ("Le", "Lt", "Ge", "Gt") and found is None:
+                            l, r = de.ev(x["l"]), de.ev(x["r"])
+                            if {l, r} == {("dimR", "A", 2 if ta else 1), ("dimR", "B", 1 if tb else 2)}:
+                                found = ("order", x["op"], n)
                         if x.get("k") == "Binary" and x.get("op") == "Eq":
                             l, r = de.ev(x["l"]), de.ev(x["r"])
                             if {l, r} == {("dimR", "A", 2 if ta else 1), ("dimR", "B", 1 if tb else 2)}:
@@ -1304,6 +1308,9 @@ def r38_matmul_shapes(facts):
             inst = "%s:compatible" % tag
             if found is True:
                 c.ok(inst, where0, "refuses unless A's inner dimension equals B.dimensions[len - %d]" % (1 if tb else 2))
+            elif isinstance(found, tuple) and found[0] == "order":
+                c.bad(inst, F.loc(b, found[2]), "the compatibility assertion relates the inner dimensions of op(A) and op(B) with `%s` instead of equality: operands whose inner dimensions differ in one direction are multiplied instead of refused"
+                      % {"Le": "<=", "Lt": "<", "Ge": ">=", "Gt": ">"}[found[1]])
             elif found is None:
                 c.unk(inst, where0, "no assertion comparing the inner dimensions of A and B recognised")
             else:
